@@ -20,8 +20,8 @@ namespace GV
 open Builder
 
 theorem contains_perm {l1 l2 : List Nat} (h : l1.Perm l2) (c : Nat) : l1.contains c = l2.contains c := by
-  simp only [List.contains_iff_mem, h.mem_iff]
-  rfl
+  rw [Bool.eq_iff_iff]
+  simp [h.mem_iff]
 
 /-- `push_panic_if`: builder state and record wires depend only on the set of cached conditions -/
 theorem C06_cache_order_irrelevant_push (b : Builder) (w : List Nat) (l1 l2 : List Nat) (h : l1.Perm l2)
